@@ -270,3 +270,65 @@ def analysis_units(ctx, reach):
         return out
 
     return ctx.get(("analysis_units", tuple(sorted(reach))[:3], len(reach)), build)
+
+
+def param_values(ctx, f, pname, depth=0, seen=None):
+    """The numeric constants a parameter of f can hold given the package's own call sites (and its default): for each call
+    of f in the package the argument expression, a parameter of the caller being resolved the same way.  Returns a set of
+    Fractions, or None when some call passes something that is not traced to a constant.  Callers outside the package are
+    not considered: the rule using this states so."""
+    from fractions import Fraction
+
+    seen = seen or set()
+    if (f.qual, pname) in seen or depth > 4:
+        return None
+    seen = seen | {(f.qual, pname)}
+    P = ctx.P
+    out = set()
+
+    def const_of(e, g):
+        v = const_value(e) if isinstance(e, ast.Constant) else None
+        if isinstance(v, (int, float)) and not isinstance(v, bool):
+            return {Fraction(str(v))}
+        if isinstance(e, ast.Name) and g is not None and (e.id in g.params or e.id in g.kwonly):
+            return param_values(ctx, g, e.id, depth + 1, seen)
+        if isinstance(e, ast.Name) and g is not None:
+            m = g.module
+            ga = m.global_assigns(e.id) if hasattr(m, "global_assigns") else []
+            if len(ga) == 1 and isinstance(ga[0].value, ast.Constant) and isinstance(ga[0].value.value, (int, float)):
+                return {Fraction(str(ga[0].value.value))}
+        return None
+
+    positional = list(f.params[1:]) if (f.cls is not None and not f.is_staticmethod and f.params) else list(f.params)
+    n_sites = 0
+    for caller, sites in ctx.cg.sites.items():
+        g = P.funcs.get(caller)
+        for call, quals in sites:
+            if f.qual not in quals:
+                continue
+            n_sites += 1
+            e = None
+            for kw in call.keywords:
+                if kw.arg == pname:
+                    e = kw.value
+                elif kw.arg is None:
+                    return None
+            if e is None and pname in positional:
+                i = positional.index(pname)
+                if i < len(call.args) and not any(isinstance(a, ast.Starred) for a in call.args[: i + 1]):
+                    e = call.args[i]
+            if e is None:
+                if pname in f.defaults:
+                    vs = const_of(f.defaults[pname], None)
+                else:
+                    return None
+            else:
+                vs = const_of(e, g)
+            if vs is None:
+                return None
+            out |= vs
+    if not n_sites:
+        if pname in f.defaults:
+            return const_of(f.defaults[pname], None)
+        return None
+    return out
